@@ -351,7 +351,8 @@ def gen_ctime_spec(rng, spec):
     w["off"] = 0
     dn = model.to_daynum("gregorian", w["y"], w["m"], w["d"])
     f = dict(w, wd=model.weekday("gregorian", dn))
-    spec.update(src="arg", notation=n, written=w, text=cm.render_ctime(f),
+    spec.update(src=rng.choice(["arg", "arg", "stdin", "ref_opt", "ref_env"]),
+                notation=n, written=w, text=cm.render_ctime(f),
                 ctime=True)
     if rng.random() < 0.4:
         # Unix `date` text; printed back it loses its zone name (the standard
@@ -416,7 +417,9 @@ def gen_pfmt_spec(rng, mode, spec):
         w["off"] = 330
     f = dict(w, wy=w["y"])
     text = cm.render_strf(fmt, f, w["off"] or 0, 0)
-    spec.update(src="arg", notation=n, written=w, text=text, pfmt=fmt)
+    # (text with blanks in it travels on every carrier an ISO text does)
+    spec.update(src=rng.choice(["arg", "arg", "stdin", "ref_opt", "ref_env"]),
+                notation=n, written=w, text=text, pfmt=fmt)
     spec["offsets"] = [gen_offset(rng, "hms") for _ in range(
         rng.choice([0, 1, 1, 2]))]
     if rng.random() < 0.25:
